@@ -51,6 +51,14 @@ pub fn ext_bang(s: &str) -> Ext<String> {
 }
 pub const USER_PANIC: &str = "verif: the user's extern function panics";
 
+/// consumes exactly 2^32 + 5 bytes in one step when that many are there (offsets beyond 32 bits without a long parse)
+pub fn ext_skip_4g(s: &str) -> Ext<String> {
+    let n = (1usize << 32) + 5;
+    let r = if s.len() >= n && s.is_char_boundary(n) { Ok((String::new(), n)) } else { Err("expected 4 GiB of filler") };
+    log_ext("ext_skip_4g", s, &r);
+    r
+}
+
 /// succeeds without consuming
 pub fn ext_zero(s: &str) -> Ext<String> {
     let r = Ok((String::new(), 0));
